@@ -107,7 +107,7 @@ def random_in_range(min, max, result):
 def randoms_in_range(n, min, max, result):
     if not (_int(n) and n >= 0 and bounds_in_domain(min, max)): return True
     CNT["contract.randoms.in_range"] += 1
-    if not isinstance(result, list) or len(result) != n: return _fail("wrong-length")
+    if not isinstance(result, (list, tuple)) or len(result) != n: return _fail("wrong-length")
     if n == 0: return True
     try:
         if min <= builtins.min(result) and builtins.max(result) < max and (n > 4096 or all(map(_real, result))): return True
@@ -123,7 +123,7 @@ def randint_in_range(a, b, result):
 def randints_in_range(n, a, b, result):
     if not (_int(n) and n >= 0 and _int(a) and _int(b) and a <= b): return True
     CNT["contract.randints.in_range"] += 1
-    if not isinstance(result, list) or len(result) != n: return _fail("wrong-length")
+    if not isinstance(result, (list, tuple)) or len(result) != n: return _fail("wrong-length")
     for r in result:
         if not _int(r): return _fail("not-an-int")
         if not a <= r <= b: return _fail("result<a" if r < a else "result>b")
@@ -205,7 +205,7 @@ def gauss_finite_float(mu, sigma, result):
 def gausses_finite_floats(n, mu, sigma, result):
     if not (_int(n) and n >= 0 and _gauss_domain(mu, sigma)): return True
     CNT["contract.gausses.finite"] += 1
-    if not isinstance(result, list) or len(result) != n: return _fail("wrong-length")
+    if not isinstance(result, (list, tuple)) or len(result) != n: return _fail("wrong-length")
     if n == 0: return True
     if set(map(type, result)) != {float}: return _fail("not-a-float")
     return True if math.isfinite(sum(result)) else _fail("non-finite")
